@@ -62,6 +62,15 @@ def _none_is_overwritten_when_flag_set(f, o):
     return False
 
 
+def _is_stmt_sink(prog, name):
+    if not name:
+        return False
+    if name.endswith("::compile_stmt"):
+        return True
+    f = prog.fns.get(name)
+    return f is not None and any("ast::Stmt" in f.locals[l].get("s", "") for l in range(2, f.argc + 1))
+
+
 def labelled_events(prog):
     """(codegen events, tracker events, codegen sinks, tracker sinks)"""
     lab = events.Labeller(prog)
@@ -69,6 +78,16 @@ def labelled_events(prog):
     mt = [f for k, f in prog.fns.items() if k.startswith(M)]
     csinks = {G + "compile_expr": ("eval", 1), G + "compile_stmt": ("eval", 1), G + "compile_assignment": ("assign", 1),
               G + "compile_call_args": ("eval", 1), G + "compile_call": ("eval", 1), G + "compile_emit_expr": ("eval", 1)}
+    # helpers of the generator that take statements or an expression are sinks as well (found by their parameter type, so
+    # that moving a `for node in body { compile_stmt(node) }` loop into a helper does not hide the body from the rules)
+    for k, f in prog.fns.items():
+        if not k.startswith(G) or f.kind == "closure" or k in csinks:
+            continue
+        for l in range(2, f.argc + 1):
+            t = f.locals[l].get("s", "")
+            if "ast::Stmt" in t and ("[" in t or t.startswith("&")):
+                csinks[k] = ("eval", l - 1)
+                break
     msinks = {M + "tracker_visit_expr": ("eval", 0), M + "tracker_visit_expr_opt": ("eval", 0), M + "track_walk": ("eval", 0),
               M + "track_assign": ("assign", 0), M + "tracker_visit_callarg": ("eval", 0), M + "tracker_visit_macro": ("eval", 0)}
     return (list(events.collect(prog, lab, cg, csinks)), list(events.collect(prog, lab, mt, msinks)), csinks, msinks)
@@ -81,7 +100,7 @@ def check_statement_lists_walked(ctx, prog, tag, rule, ce, me):
     have = {(m.T, m.field[:1]) for m in me if m.kind == "eval" and (m.sink or "").endswith("::track_walk")}
     seen = set()
     for e in ce:
-        if e.kind != "eval" or not e.field or not (e.sink or "").endswith("::compile_stmt"):
+        if e.kind != "eval" or not e.field or not _is_stmt_sink(prog, e.sink):
             continue
         key = (e.T, e.field[:1])
         if key in seen:
@@ -137,7 +156,7 @@ def check_scope_mirroring(ctx, prog, tag, rule, ce, me):
                     continue
                 # only statement lists bind arbitrary names (`set`, nested loops); what an expression part's frame binds
                 # (the loop target of the filter pre-pass) is bound again for the part that follows
-                if not (a.sink or "").endswith("::compile_stmt"):
+                if not _is_stmt_sink(prog, a.sink):
                     continue
                 if not between(a.fn, a.bb, b.bb, closers_cg.get(a.fn.path, ())):
                     continue
@@ -217,6 +236,32 @@ def run(ctx):
                    "reported" % (T, fld, e.site), e.site)
         ctx.floor("C18.W1 evaluations inside assignment targets" + tag, n1b, 1)
 
+        # ---- W7: a macro encloses every name the tracker found free in its body.  In the function that emits the
+        # `Enclose` instructions the loop over the tracker's result emits one for *every* name: a path that skips the
+        # emission (a dedupe against names enclosed "already" - by code that may not have run) leaves the name out of the
+        # closure and the body asks the render context for it.
+        ENC_HOSTS = [f for f in prog.fns.values() if f.path.startswith(G) and f.kind != "closure" and any(
+            c.name in (G + "add", G + "add_with_span") and len(c.args) > 1 and any(
+                o.kind == "agg" and o.rv.get("variant") == "Enclose" for o in flow.origins(f, c.args[1])) for c in f.calls())]
+        n7 = 0
+        for f in ENC_HOSTS:
+            encs = [c for c in f.calls() if c.name in (G + "add", G + "add_with_span") and len(c.args) > 1 and any(
+                o.kind == "agg" and o.rv.get("variant") == "Enclose" for o in flow.origins(f, c.args[1]))]
+            for h, body in cfg.natural_loops(f):
+                inside = [c for c in encs if c.bb in body]
+                if not inside:
+                    continue
+                n7 += 1
+                nexts = [c for c in f.calls() if c.bb in body and c.name.endswith("::next")]
+                back = {t for (t, hh) in cfg.back_edges(f) if hh == h}
+                ok7 = bool(nexts) and all(cfg.paths_must_pass(f, n_.target if n_.target is not None else n_.bb,
+                                                              [c.bb for c in inside], back) for n_ in nexts)
+                ctx.ob("C18.W7.every-free-name-is-enclosed", tag + f.path.split("::")[-1], ok7,
+                       "the loop over the names the tracker found free in the macro body can reach its next iteration without "
+                       "emitting Enclose: that name is missing from the macro's closure and is looked up in the render context "
+                       "although undeclared_variables() treats it as assigned", f.where(h))
+        if prog.has_fn(G + "compile_macro_expression"):
+            ctx.floor("C18.W7 loops emitting Enclose" + tag, n7, 1)
         # ---- W6
         n6 = check_scope_mirroring(ctx, prog, tag, "C18.W6.tracker-scope-ends-where-the-engine's-frame-ends", ce, me)
         ctx.floor("C18.W6 frame ends between two evaluated parts of a node" + tag, n6, 1)
